@@ -275,7 +275,9 @@ function genTrace(spec, seed, bridge, run) {
     // the most adversarial schedule for a fresh borrower: the program forgets every input right after the call,
     // the collector runs, the finalizers of whatever died run, then the borrower is used
     const dropArgs = rng.chance(1, 3);
-    ops.push({ op: "call", m: spec.methods.indexOf(m), self: m.static ? -1 : slotOf(m.owner), args, dst, arm, noneMask: isStruct ? rng.below(8) * (rng.below(8) < noneRate ? 1 : 0) : 0, dropArgs });
+    // of a returned struct the program often keeps only some field wrappers (bit i = keep field i; never none)
+    const keepMask = isStruct ? (rng.chance(1, 2) ? 7 : 1 + rng.below(7)) : 7;
+    ops.push({ op: "call", m: spec.methods.indexOf(m), self: m.static ? -1 : slotOf(m.owner), args, dst, arm, noneMask: isStruct ? rng.below(8) * (rng.below(8) < noneRate ? 1 : 0) : 0, dropArgs, keepMask });
     if (dropArgs) {
       const used = []; const walk = (a) => { if (Array.isArray(a)) a.forEach(walk); else if (typeof a === "number" && a >= 0) used.push(a); };
       walk(args); if (!m.static) used.push(ops[ops.length - 1].self);
@@ -287,7 +289,7 @@ function genTrace(spec, seed, bridge, run) {
     }
     if (isStruct) {
       // the fields of the returned struct are spread over the free slots (the executor does the same)
-      if (arm || m.ret.kind === "struct") { const sdef = spec.outs.find((s) => s.name === m.ret.ty); let k = 0; for (let si = 0; si < NSLOT && k < sdef.fields.length; si++) if (!types[si]) { types[si] = sdef.fields[k].ty; k++; } }
+      if (arm || m.ret.kind === "struct") { const sdef = spec.outs.find((s) => s.name === m.ret.ty); let k = 0; for (let si = 0; si < NSLOT && k < sdef.fields.length; si++) if (!types[si]) { if ((keepMask >> k) & 1) types[si] = sdef.fields[k].ty; k++; } }
     } else if (arm || m.ret.kind === "box" || m.ret.kind === "ref") types[dst] = m.ret.ty;
   }
   return { seed, bridge, run, ops };
@@ -404,9 +406,10 @@ async function execute(spec, classes, trace) {
           const lr = W.lastReturn; let k = 0;
           for (let si = 0; si < NSLOT && k < lr.fields.length; si++) {
             if (held[si]) continue;
-            const ent = lr.fields[k]; const fw = r.v[lr.def.fields[k].name]; k++;
-            if (ent && fw) held[si] = { w: fw, ent };
-            else if (!!ent !== !!fw) violate("HARNESS", "struct field presence differs from what the model wrote");
+            const ent = lr.fields[k]; const fw = r.v[lr.def.fields[k].name]; const keep = ((op.keepMask ?? 7) >> k) & 1; k++;
+            if (!!ent !== !!fw) violate("HARNESS", "struct field presence differs from what the model wrote");
+            else if (ent && fw && keep) held[si] = { w: fw, ent };
+            else if (ent && fw) { inc("struct_field_wrapper_not_kept"); si--; }
           }
         } else if (r.v != null && W.lastReturn) held[op.dst] = { w: r.v, ent: W.lastReturn };
         else line += " -> null";
